@@ -260,10 +260,27 @@ func TestC14(t *testing.T) {
 	run.Note("exhaustive", false)
 	run.Sample(map[string]interface{}{"fn": "LessThan", "v": bases[2], "w": bases[2] + 1, "got": seqnum.Value(bases[2]).LessThan(seqnum.Value(bases[2] + 1))})
 	run.Sample(map[string]interface{}{"fn": "Overlap", "a": uint32(0xfffffff0), "b": 32, "x": 5, "y": 1, "got": seqnum.Overlap(0xfffffff0, 32, 5, 1)})
+	// part two: TCP transcripts must be invariant under translation of the initial sequence numbers
+	{
+		nv := fw.N(320, 20000)
+		var cw sync.WaitGroup
+		for c := 0; c < 16; c++ {
+			c := c
+			cw.Add(1)
+			go func() {
+				defer cw.Done()
+				res := run.RunChild(fw.ChildSpec{Bin: os.Getenv("VERIF_BIN_VT"), Test: "^TestC14VT$", Tag: fmt.Sprintf("vt%d", c), Env: []string{fmt.Sprintf("VERIF_RANGE=%d %d", nv*c/16, nv*(c+1)/16)}})
+				if !res.Done {
+					run.ChildCrashed(res, "C14/tcp", c)
+				}
+			}()
+		}
+		cw.Wait()
+	}
 	for _, v := range viols {
 		run.Violation(fmt.Sprintf("C14/%s", v.fn), fmt.Sprintf("%s%v = %v, definition gives %v", v.fn, v.args, v.got, v.want), v)
 	}
 	code := run.Finish("for each base point (boundaries 0,1,2^31±1,2^32-1 + PRNG bases): distances at ±k around every power of two, a 2^14-strided sweep with PRNG jitter, (thorough: all 2^32 distances) for LessThan/LessThanEq/Size/Add/UpdateForward; edge probes for InRange/InWindow; edge-aligned second windows for Overlap; plus PRNG tuples. distinct_nontrivial counts (function, base, log2-distance bucket) classes exercised",
-		[]string{"antipodal distance 2^31 for the comparisons, empty windows and unions spanning >= 2^31 for Overlap are evaluated and counted but not judged (outside serial-number arithmetic's domain)", "the TCP-level half of C14 (ISS placed next to 2^31/2^32) is executed by the C01/C02/C04/C05 checks, which place ISS at wrap-adjacent values"})
+		[]string{"antipodal distance 2^31 for the comparisons, empty windows and unions spanning >= 2^31 for Overlap are evaluated and counted but not judged (outside serial-number arithmetic's domain)", "TCP-level half: the same relative scripted-peer script (in-order, out-of-order, overlapping and duplicate data, writes, partial/duplicate/SACK ACKs, reads, pauses) is replayed in virtual time with both initial sequence numbers far from any wrap and then placed just below 2^31 / 2^32; the stack's transcript in relative numbers must be identical (a baseline that is not reproducible run-to-run is inconclusive); C01/C02/C04/C05 additionally place ISS at wrap-adjacent values"})
 	os.Exit(code)
 }
